@@ -231,6 +231,10 @@ fn fold_atom(
     prefix: String,
     name: String,
 ) -> FoldResult<EnumTerm> {
+    // 除占位符外，原子词项名不能为空（与枚举Narsese解析器保持一致）
+    if name.is_empty() && prefix != folder.atom.prefix_placeholder {
+        return Err(FoldError!("词项名不能为空"));
+    }
     Ok(first! {
         (prefix.eq) => (_);
         // 词语 | ✅这里不用再害怕「空前缀」问题
